@@ -90,6 +90,7 @@ type message struct {
 	Type    types.TxType
 	Payload []byte
 	Dup     bool // conflicting second message of the same type from the same sender (never on one chain; exercises the store's own guard)
+	EvBits  []uint32 // evidence maps only: the candidate indexes (inside the sender's shard) the map was written from
 	tx      *types.Transaction
 }
 
@@ -797,6 +798,7 @@ func buildMessages(s *caseSpec, tables []ceremony.VerifC17Shard, parts []partici
 			_ = ci
 			rng := rand.New(rand.NewSource(p.Seed ^ 0x5bd1e995))
 			bm := common.NewBitmap(uint32(len(sh.Candidates)))
+			bits := []uint32{}
 			for k := range sh.Candidates {
 				in := present[k]
 				if rng.Intn(100) < p.EvNoise {
@@ -804,11 +806,19 @@ func buildMessages(s *caseSpec, tables []ceremony.VerifC17Shard, parts []partici
 				}
 				if in {
 					bm.Add(uint32(k))
+					bits = append(bits, uint32(k))
 				}
 			}
 			var buf bytes.Buffer
 			bm.WriteTo(&buf)
-			msgs = append(msgs, message{From: idx, Type: types.EvidenceTx, Payload: append([]byte(nil), buf.Bytes()...)})
+			payload := append([]byte(nil), buf.Bytes()...)
+			// harness self-check: the serialized map reads back as the set it was written from
+			back := common.NewBitmap(uint32(len(sh.Candidates)))
+			back.Read(payload)
+			if fmt.Sprint(back.ToArray()) != fmt.Sprint(bits) {
+				panic(fmt.Sprintf("harness: evidence map %x reads back as %v, written from %v", payload, back.ToArray(), bits))
+			}
+			msgs = append(msgs, message{From: idx, Type: types.EvidenceTx, Payload: payload, EvBits: bits})
 		}
 	}
 	return msgs
@@ -858,7 +868,88 @@ func validOrder(s *caseSpec, order []int) []int {
 // the statement's implications on the real outcome
 // ---------------------------------------------------------------------------
 
-func statementOnOutcome(s *caseSpec, o *outcome) string {
+// approvalModel is the harness' own reading of "approved candidates from on-chain
+// evidence maps", written from the rule and not from the node's code path: per
+// shard, the evidence maps recorded in blocks from senders that are candidates of
+// THAT shard (one per sender, the first), bit k of a map = k-th candidate of the
+// shard; a candidate is approved iff more than half of those maps name it
+// (at least len(maps)/2+1). No map -> nobody approved.
+type approvalView struct {
+	Approved       map[int]bool // identity index -> approved by the maps of its own shard
+	OwnVotes       map[int]int  // identity index -> own-shard maps naming it
+	OwnMaps        map[int]int  // identity index -> number of maps of its own shard
+	ShardsWithMaps int
+	// what a node would see that pooled in the maps of other shards whose sender's index inside
+	// its own shard happens to be a valid index here (used for class counting only)
+	ForeignBitSet  map[int]bool
+	PooledApproves map[int]bool
+}
+
+func approvalModel(s *caseSpec, tables []ceremony.VerifC17Shard) *approvalView {
+	v := &approvalView{Approved: map[int]bool{}, OwnVotes: map[int]int{}, OwnMaps: map[int]int{}, ForeignBitSet: map[int]bool{}, PooledApproves: map[int]bool{}}
+	type evMap struct {
+		shard  int
+		ownIdx int
+		bits   map[uint32]bool
+	}
+	shardOf, ownIdx := map[int]int{}, map[int]int{}
+	for si, sh := range tables {
+		for k, a := range sh.Candidates {
+			shardOf[s.byAddr[a]], ownIdx[s.byAddr[a]] = si, k
+		}
+	}
+	var maps []evMap
+	seen := map[int]bool{}
+	for _, m := range s.Msgs {
+		if m.Type != types.EvidenceTx || m.Dup || seen[m.From] || len(m.Payload) == 0 {
+			continue
+		}
+		si, ok := shardOf[m.From]
+		if !ok {
+			continue // not a ceremony candidate: the chain refuses its evidence
+		}
+		seen[m.From] = true
+		e := evMap{shard: si, ownIdx: ownIdx[m.From], bits: map[uint32]bool{}}
+		for _, b := range m.EvBits {
+			e.bits[b] = true
+		}
+		maps = append(maps, e)
+	}
+	for si, sh := range tables {
+		own := 0
+		for _, e := range maps {
+			if e.shard == si {
+				own++
+			}
+		}
+		if own > 0 {
+			v.ShardsWithMaps++
+		}
+		for k, a := range sh.Candidates {
+			i := s.byAddr[a]
+			votes, pooledMaps, pooledVotes := 0, 0, 0
+			for _, e := range maps {
+				if e.shard == si {
+					if e.bits[uint32(k)] {
+						votes++
+					}
+				} else if e.ownIdx < len(sh.Candidates) {
+					pooledMaps++
+					if e.bits[uint32(k)] {
+						pooledVotes++
+						v.ForeignBitSet[i] = true
+					}
+				}
+			}
+			v.OwnVotes[i], v.OwnMaps[i] = votes, own
+			v.Approved[i] = votes >= own/2+1
+			v.PooledApproves[i] = votes+pooledVotes >= (own+pooledMaps)/2+1
+		}
+	}
+	return v
+}
+
+func statementOnOutcome(s *caseSpec, o *outcome, tables []ceremony.VerifC17Shard) string {
 	if o.Failed {
 		return "" // "validation failed, nobody is validated, identities remain the same": no new statuses were decided
 	}
@@ -874,14 +965,17 @@ func statementOnOutcome(s *caseSpec, o *outcome) string {
 			hasLong[m.From] = true
 		}
 	}
+	appr := approvalModel(s, tables)
 	for i := range s.Idents {
 		id := &s.Idents[i]
 		after := o.After[id.Addr]
 		lacking := len(id.Flips) < int(id.Required)
-		missedSession := !hasShort[i] || !hasLong[i]
+		// missed the session: no answers of one of its parts in blocks, or the evidence of its own shard
+		// (the on-chain record of who was there in time) does not approve it
+		missedSession := !hasShort[i] || !hasLong[i] || !appr.Approved[i]
 		if (lacking || missedSession) && after.NewbieOrBetter() {
-			return fmt.Sprintf("id%d (%s, requiredFlips=%d madeFlips=%d, short answers recorded=%v, long answers recorded=%v) is %s after the validation: an identity that missed the session or lacked its required flips was promoted or left validated",
-				i, stateName(id.State), id.Required, len(id.Flips), hasShort[i], hasLong[i], stateName(after))
+			return fmt.Sprintf("id%d (%s, requiredFlips=%d madeFlips=%d, short answers recorded=%v, long answers recorded=%v, named by %d of the %d evidence maps of its own shard -> approved=%v) is %s after the validation: an identity that missed the session or lacked its required flips was promoted or left validated",
+				i, stateName(id.State), id.Required, len(id.Flips), hasShort[i], hasLong[i], appr.OwnVotes[i], appr.OwnMaps[i], appr.Approved[i], stateName(after))
 		}
 		if id.State == state.Invite && after != state.Killed {
 			return fmt.Sprintf("id%d was an unactivated invitation and is %s after the validation (expected terminated)", i, stateName(after))
